@@ -8,6 +8,8 @@ set equality with the input ids as strings, and re-tokenizes the wrapped text.
 import copy
 import itertools
 import re
+import sys
+import unicodedata
 
 from pmc.ref import ranges as R
 
@@ -16,7 +18,14 @@ RULE = ('(ranges) every subset of the suffix universe up to the stated size for 
         'ordering (sizes <= 4), with and without a duplicated element, rendered %04d / %d / mixed; pairs '
         'and triples of small subsets over two and three prefixes, concatenated and interleaved; long runs '
         'with gaps up to 60 ids; each as str / objects with .id / objects with .name / objects with both, '
-        'format str and list, delimiter _ and -; collections containing one non-encodable id; (fields) the '
+        'format str and list, delimiter _ and -; collections containing one non-encodable id; generated '
+        'non-encodable ids: digits with every white-space character (every str.isspace() character, NUL, ZWSP, '
+        'BOM, CRLF) after / before / around / inside them, the digits of every non-ASCII Unicode decimal script, '
+        'ASCII digits mixed with them, digit-like non-decimal characters, numeric literals, ids that are not '
+        'strings, x four prefixes x alone / after a good id / between good ids / two consecutive ones, with '
+        'parent_obj omitted, None and an object; unusual prefixes (blanks, tabs, newlines, non-ASCII letters '
+        'and digits, digits) that leave the id encodable; ids as numpy strings, str subclasses, tuples and '
+        'numpy arrays; the history call - edit the collection in place - call again; (fields) the '
         'reactions= / interactions= / BEP reaction fields written by phases and BEPs; (wrap) token lists '
         '(lengths x token-length patterns, one of them with hyphens / colons / commas inside the tokens, x '
         'container types) x every max_line_len 30..100 x three (thorough: six) line_len x the way the widths '
@@ -50,6 +59,22 @@ KINDS = ['str', 'id', 'name', 'both']
 FORMS = ['str', 'list']
 DELIMS = ['_', '-']
 BAD = ['abc', 'r{d}x1', 'r{d}1.5', 'r{d}', 'r{d}-5', 'r{d}+5', 'r{d} 5', 'r{d}1{o}0']
+# generated family of non-encodable ids (part range, key 'badx'): a footer that int() would take but that is not a
+# plain run of ASCII digits - a white-space character of every kind before / after / around / inside the digits,
+# the digits of every Unicode decimal script, ASCII digits mixed with them, digit-like characters that are not
+# decimal digits - and ids that are not strings at all
+BADX_CLASSES = ['ws-trailing', 'ws-leading', 'ws-both', 'ws-inside', 'digit-nonascii', 'digit-mixed',
+                'digit-nondecimal', 'ascii-literal', 'non-str']
+BADX_PREFIXES = ['r{d}', '', '{d}', 'a{d}b{d}']
+BADX_CONTEXTS = ['alone', 'after-good', 'between-good', 'consecutive-pair']
+INVISIBLE = ['\x00', '\u200b', '\ufeff', '\r\n', ' \t']           # not str.isspace() singles: NUL, ZWSP, BOM; CRLF; two blanks
+NONDECIMAL = ['\u00b2', '\u00b9\u00b2', '\u2460', '\u2167', '\u00bd', '\u4e94', '\u3007', '1\u00b2', '\u2081\u2082']
+ASCII_LITERAL = ['1e3', '0x10', '0b1', '1_000', '+12', '1.0', '12L', '1,2', '(12)', '#12']
+NONSTR = [5, 7.0, None, True, b'r_0001', ['r_0001']]
+# prefixes that are unusual but leave the id encodable (footer = ASCII digits): kept exactly as given
+ODD_PREFIXES = [' r', 'r ', '\tr', 'r\n', '\nr', 'r\u00a0', '\u00e9', 'r\u0661', '\uff11\uff12', 'r.5', 'R+', '0', '007',
+                'r 1']
+KINDS_X = ['npstr', 'strsub', 'tuple', 'nparray', 'id-tuple']
 
 TOK_COUNTS = [0, 1, 2, 5, 20, 80]
 TOK_PATTERNS = ['all1', 'all30', 'alt', 'asc', 'one120', 'punct']
@@ -62,6 +87,13 @@ PLANNED_TAGS = ['ids:empty', 'ids:single', 'ids:run', 'ids:gap', 'ids:duplicate'
                 'render:%04d', 'render:%d', 'render:mixed', 'suffix:>9999',
                 'kind:str', 'kind:id', 'kind:name', 'kind:both', 'form:str', 'form:list',
                 'delim:_', 'delim:-', 'bad:rejected',
+                'badx:ws-trailing', 'badx:ws-leading', 'badx:ws-both', 'badx:ws-inside', 'badx:digit-nonascii',
+                'badx:digit-mixed', 'badx:digit-nondecimal', 'badx:ascii-literal', 'badx:non-str',
+                'badx-context:alone', 'badx-context:after-good', 'badx-context:between-good',
+                'badx-context:consecutive-pair', 'badx-prefix:none', 'badx-prefix:delimiter-only',
+                'badx-parent:omitted', 'badx-parent:None', 'badx-parent:object',
+                'prefix:odd', 'kind:npstr', 'kind:strsub', 'kind:tuple', 'kind:nparray', 'kind:id-tuple',
+                'hist:edited-in-place',
                 'field:phase-reactions', 'field:interface-interactions', 'field:bep-cti', 'field:bep-yaml',
                 'field:idealgas-reactions',
                 'wrap:single-line', 'wrap:multi-line', 'wrap:long-token', 'wrap:empty',
@@ -89,6 +121,13 @@ def bounds(tier):
                 orderings='all for sizes <= 4 (others: sorted, reversed, one rotation)',
                 two_prefix_universe=p['small'], three_prefix_universe=p['tiny'], renderings=RENDER,
                 item_kinds=KINDS, forms=FORMS, delimiters=DELIMS, non_encodable=BAD,
+                non_encodable_generated=dict(
+                    classes=BADX_CLASSES, prefixes=BADX_PREFIXES, contexts=BADX_CONTEXTS,
+                    white_space='every character with str.isspace() (%d) + NUL, ZWSP, BOM, CRLF, blank+tab' % len(_ws_chars()),
+                    digit_scripts='every non-ASCII Unicode decimal-digit script (%d)' % len(_digit_zeros()),
+                    non_decimal=[ascii(x) for x in NONDECIMAL], ascii_literals=ASCII_LITERAL,
+                    non_str=[repr(x) for x in NONSTR]),
+                odd_prefixes=[ascii(x) for x in ODD_PREFIXES], item_kinds_extra=KINDS_X,
                 long_runs='starts 0,5,95,995,9995,99940 x lengths 5,20,60 x every k-th removed (none,2,3,7)',
                 token_counts=TOK_COUNTS, token_patterns=TOK_PATTERNS, containers=CONTAINERS,
                 max_line_len='30..100',
@@ -113,7 +152,7 @@ class _WithName:
 class _WithBoth:
     def __init__(self, id):
         self.id = id
-        self.name = 'name_of_' + id
+        self.name = 'name_of_%s' % (id,)
 
 
 def _prefix_literal(prefix, delim):
@@ -135,11 +174,108 @@ def _ids(spec, delim):
     return [_prefix_literal(pfx, delim) + _render(n, rnd, k) for k, (pfx, n, rnd) in enumerate(spec)]
 
 
+class _Str(str):
+    pass
+
+
 def _objs(ids, kind):
     if kind == 'str':
         return list(ids)
+    if kind == 'npstr':
+        import numpy as np
+        return [np.str_(i) for i in ids]
+    if kind == 'strsub':
+        return [_Str(i) for i in ids]
+    if kind == 'tuple':
+        return tuple(ids)
+    if kind == 'nparray':
+        import numpy as np
+        return np.array(list(ids), dtype=str) if len(ids) else np.array([], dtype=str)
+    if kind == 'id-tuple':
+        return tuple(_WithId(i) for i in ids)
     cls = dict(id=_WithId, name=_WithName, both=_WithBoth)[kind]
     return [cls(i) for i in ids]
+
+
+_UNI = {}
+
+
+def _ws_chars():
+    if 'ws' not in _UNI:
+        _UNI['ws'] = [chr(c) for c in range(sys.maxunicode + 1) if chr(c).isspace()]
+    return _UNI['ws']
+
+
+def _digit_zeros():
+    """The zero of every non-ASCII decimal-digit script of this interpreter's Unicode database."""
+    if 'z' not in _UNI:
+        zs = [c for c in range(128, sys.maxunicode + 1) if unicodedata.decimal(chr(c), None) == 0]
+        _UNI['z'] = [chr(c) for c in zs
+                     if [unicodedata.decimal(chr(c + k), None) for k in range(10)] == list(range(10))]
+    return _UNI['z']
+
+
+def _badx_footer(cls, ch, n, w):
+    """The footer of a generated non-encodable id: class, character (or literal), number, digit width."""
+    body = '%0*d' % (w, n)
+    if cls == 'ws-trailing':
+        return body + ch
+    if cls == 'ws-leading':
+        return ch + body
+    if cls == 'ws-both':
+        return ch + body + ch
+    if cls == 'ws-inside':
+        return body[:-1] + ch + body[-1:] if len(body) > 1 else ch.join(['0', body])
+    if cls == 'digit-nonascii':
+        return ''.join(chr(ord(ch) + int(d)) for d in body)
+    if cls == 'digit-mixed':
+        return body[:-1] + chr(ord(ch) + int(body[-1])) if len(body) > 1 else chr(ord(ch) + int(body)) + '0'
+    if cls in ('digit-nondecimal', 'ascii-literal'):
+        return ch
+    raise ValueError(cls)
+
+
+def _badx_specs():
+    """(class, character / literal / index, number, width) of every generated non-encodable footer."""
+    out = []
+    for ch in _ws_chars() + INVISIBLE:
+        for cls in ('ws-trailing', 'ws-leading'):
+            out.append((cls, ch, 7, 4))
+            out.append((cls, ch, 5, 1))
+        out.append(('ws-both', ch, 7, 4))
+        out.append(('ws-inside', ch, 7, 4))
+    for z in _digit_zeros():
+        out.append(('digit-nonascii', z, 12, 2))
+        out.append(('digit-nonascii', z, 7, 4))
+        out.append(('digit-mixed', z, 5, 4))
+        out.append(('digit-mixed', z, 1, 1))
+    for lit in NONDECIMAL:
+        out.append(('digit-nondecimal', lit, 0, 0))
+    for lit in ASCII_LITERAL:
+        out.append(('ascii-literal', lit, 0, 0))
+    return out
+
+
+def _badx_ids(bx, delim):
+    """(ids of the collection, positions of the non-encodable ones)."""
+    pre = bx['prefix'].replace('{d}', delim)
+    if bx['cls'] == 'non-str':
+        bad = [NONSTR[bx['ch']]]
+        if isinstance(bad[0], list):
+            bad = [list(bad[0])]
+    else:
+        bad = [pre + _badx_footer(bx['cls'], bx['ch'], bx['n'], bx['w'])]
+        if bx['context'] == 'consecutive-pair':
+            bad.append(pre + _badx_footer(bx['cls'], bx['ch'], bx['n'] + 1, bx['w']))
+    g1, g2 = 'r' + delim + '0001', 'r' + delim + '0002'
+    c = bx['context']
+    if c in ('alone', 'consecutive-pair'):
+        return bad
+    if c == 'after-good':
+        return [g1] + bad
+    if c == 'between-good':
+        return [g1] + bad + [g2]
+    raise ValueError(c)
 
 
 # ------------------------------------------------------------------------------ (ranges)
@@ -227,6 +363,48 @@ def _range_cases(tier):
                 for k, f, d in full:
                     yield dict(part='range', spec=[['r', n, '%04d'] for n in good], kind=k, form=f, delim=d,
                                bad=[bi, pos])
+    # generated non-encodable ids: every footer x prefix x context; prefix r<d> takes every (kind, form, delimiter),
+    # the other prefixes four of them in rotation; parent_obj omitted / None / an object in rotation
+    for fi, (cls, ch, n, w) in enumerate(_badx_specs()):
+        for pi, pre in enumerate(BADX_PREFIXES):
+            for ci, context in enumerate(BADX_CONTEXTS):
+                if pi == 0:
+                    combos = full
+                else:
+                    combos = [full[(rot + 5 * j) % len(full)] for j in range(4)]
+                    rot += 1
+                for j, (k, f, d) in enumerate(combos):
+                    yield dict(part='range', spec=[], kind=k, form=f, delim=d, bad=None,
+                               badx=dict(cls=cls, ch=ch, n=n, w=w, prefix=pre, context=context,
+                                         parent=(fi + pi + ci + j) % 3))
+    # ids that are not strings
+    for ni in range(len(NONSTR)):
+        for context in ('alone', 'after-good', 'between-good'):
+            for k in ('str', 'id', 'name', 'both', 'tuple'):
+                for f in FORMS:
+                    yield dict(part='range', spec=[], kind=k, form=f, delim='_', bad=None,
+                               badx=dict(cls='non-str', ch=ni, n=0, w=0, prefix='', context=context,
+                                         parent=(ni + len(k)) % 3))
+    # unusual prefixes that leave the id encodable
+    shapes = [[7], [7, 8, 9], [1, 3], [9, 10, 11, 10], [2, 1]]
+    for pfx in ODD_PREFIXES:
+        for ns in shapes:
+            for rnd in RENDER:
+                if rnd == 'mixed' and len(ns) < 2:
+                    continue
+                for k, f, d in full:
+                    yield dict(part='range', spec=[[pfx, n, rnd] for n in ns], kind=k, form=f, delim=d, bad=None)
+    # other containers / string types: str subclasses, numpy strings, tuples, numpy arrays
+    for size in range(0, 4):
+        for sub in itertools.combinations(UNIVERSE[:7], size):
+            for order in ([list(sub)] if size < 2 else [list(sub), list(reversed(sub)), list(sub) + [sub[0]]]):
+                for pfx in PREFIXES:
+                    for rnd in ('%04d', '%d'):
+                        for k in KINDS_X:
+                            f, d = FORMS[rot % 2], DELIMS[(rot // 2) % 2]
+                            rot += 1
+                            yield dict(part='range', spec=[[pfx, n, rnd] for n in order], kind=k, form=f, delim=d,
+                                       bad=None)
 
 
 def _case_ids(case):
@@ -236,6 +414,8 @@ def _case_ids(case):
         bi, pos = case['bad']
         other = '-' if d == '_' else '_'
         ids.insert(pos, BAD[bi].replace('{d}', d).replace('{o}', other))
+    if case.get('badx'):
+        ids = _badx_ids(case['badx'], d)
     return ids
 
 
@@ -243,12 +423,33 @@ def _range_sig(case):
     spec = case['spec']
     if case.get('bad'):
         return dict(part='range', bad=BAD[case['bad'][0]])
+    if case.get('badx'):
+        return dict(part='range', bad=case['badx']['cls'], form=case['form'])
     pf = sorted({s[0] for s in spec})
     rn = sorted({s[2] for s in spec})
-    return dict(part='range', form=case['form'],
-                render=rn[0] if len(rn) == 1 else ('mixed' if rn else 'none'),
-                empty_prefix=('' in pf or '<empty+delimiter>' in pf),
-                bad='no', n='0' if not spec else ('1' if len(spec) == 1 else 'many'))
+    sig = dict(part='range', form=case['form'],
+               render=rn[0] if len(rn) == 1 else ('mixed' if rn else 'none'),
+               empty_prefix=('' in pf or '<empty+delimiter>' in pf),
+               bad='no', n='0' if not spec else ('1' if len(spec) == 1 else 'many'))
+    if any(x in ODD_PREFIXES for x in pf):
+        sig['prefix'] = 'odd'
+    if case['kind'] in KINDS_X:
+        sig['kind'] = case['kind']
+    return sig
+
+
+class _Parent:
+    pass
+
+
+def _id_of(o):
+    if isinstance(o, str):
+        return str(o)
+    if hasattr(o, 'id'):
+        return o.id
+    if hasattr(o, 'name'):
+        return o.name
+    return o
 
 
 def _range_eval(case, ctx):
@@ -257,12 +458,18 @@ def _range_eval(case, ctx):
     d = case['delim']
     ids = _case_ids(case)
     objs = _objs(ids, case['kind'])
-    all_ok = all(R.encodable(i, d) for i in ids)
+    all_ok = all(isinstance(i, str) and R.encodable(i, d) for i in ids)
     ctx.trace()
     ctx.trans()
     held = list(objs)
+    kw = dict(objs=objs, delimiter=d, format=case['form'])
+    parent = (case.get('badx') or {}).get('parent', 0)
+    if parent == 1:
+        kw['parent_obj'] = None
+    elif parent == 2:
+        kw['parent_obj'] = _Parent()
     try:
-        out = _get_omkm_range(objs=objs, delimiter=d, format=case['form'])
+        out = _get_omkm_range(**kw)
     except (ValueError, TypeError) as e:
         ctx.evals()
         ctx.true('encodable ids are not rejected', not all_ok, sig, case,
@@ -279,13 +486,21 @@ def _range_eval(case, ctx):
         return
     clause = ('expanded range notation denotes exactly the input ids (none lost, added or renamed)' if all_ok else
               'an id that cannot be encoded is rejected or kept verbatim, never altered')
-    ctx.equal(clause, sorted(set(got)), sorted(set(ids)), sig, case)
+    if all(isinstance(i, str) for i in ids):
+        ctx.equal(clause, sorted(set(got)), sorted(set(str(i) for i in ids)), sig, case)
+    else:
+        # an id that is not a string cannot be written at all
+        ctx.fail(clause, sig, case, repr(out)[:120], 'TypeError / ValueError')
     # the caller's collection is left alone: same objects in the same order, carrying the same ids
-    now = [o if isinstance(o, str) else getattr(o, 'id', None) or o.name for o in objs]
+    now = [_id_of(o) for o in objs]
+    if case['kind'] == 'nparray':
+        same = all(a == b for a, b in zip(objs, held))         # a numpy array hands out new scalars every time
+    else:
+        same = all(a is b for a, b in zip(objs, held))
     ctx.true('the collection given to the range function is left unchanged',
-             len(objs) == len(held) and all(a is b for a, b in zip(objs, held)) and now == ids, sig, case,
-             None if now == ids else now[:8], ids[:8])
-    if case['form'] == 'list' and isinstance(out, list) and (len(case['spec']) <= 3 or case.get('long')):
+             len(objs) == len(held) and same and now == ids, sig, case, None if now == ids else now[:8], ids[:8])
+    small = len(ids) <= 3 or case.get('long')
+    if case['form'] == 'list' and isinstance(out, list) and small:
         # the list handed out is the caller's: emptying it must not change what the next call reports
         first = list(out)
         out.clear()
@@ -294,6 +509,37 @@ def _range_eval(case, ctx):
         again = _get_omkm_range(objs=objs, delimiter=d, format='list')
         ctx.true('the list handed out is fresh (editing it does not change the next answer)', again == first,
                  sig, case, None if again == first else repr(again)[:120], first[:6])
+    if all_ok and small and isinstance(objs, list):
+        # history: the caller edits the same collection in place (renames its first member, appends two members
+        # that continue a run) and gives it again - the answer is the one for the new content
+        ctx.tag('hist:edited-in-place')
+        new_ids = list(ids)
+        extra = ['zz' + d + '0041', 'zz' + d + '0042']
+        if objs:
+            first_new = 'zz' + d + '0043'
+            o = objs[0]
+            if isinstance(o, str):
+                objs[0] = type(o)(first_new)
+            elif hasattr(o, 'id'):
+                o.id = first_new
+            else:
+                o.name = first_new
+            new_ids[0] = first_new
+        mk = _objs(extra, case['kind'])
+        objs.extend(mk)
+        new_ids += extra
+        ctx.trace()
+        ctx.trans()
+        out2 = _get_omkm_range(objs=objs, delimiter=d, format=case['form'])
+        hsig = dict(sig, history='call, edit the collection in place, call again')
+        try:
+            got2 = R.expand(out2, case['form'])
+        except R.Malformed as e:
+            ctx.fail('output is well-formed range notation of the requested form', hsig, case, '%r (%s)' % (out2, e),
+                     'well-formed')
+            return
+        ctx.equal('a collection edited in place and given again is written with its new content',
+                  sorted(set(got2)), sorted(set(new_ids)), hsig, case)
 
 
 def _range_tags(case, ctx):
@@ -337,6 +583,18 @@ def _range_tags(case, ctx):
     ctx.tag('kind:' + case['kind'])
     ctx.tag('form:' + case['form'])
     ctx.tag('delim:' + case['delim'])
+    if any(x in ODD_PREFIXES for x in pf):
+        ctx.tag('prefix:odd')
+    bx = case.get('badx')
+    if bx:
+        ctx.tag('badx:' + bx['cls'])
+        ctx.tag('badx-context:' + bx['context'])
+        if bx['prefix'] == '' and bx['cls'] != 'non-str':
+            ctx.tag('badx-prefix:none')
+        if bx['prefix'] == '{d}':
+            ctx.tag('badx-prefix:delimiter-only')
+        ctx.tag('badx-parent:' + ('omitted', 'None', 'object')[bx['parent']])
+        return bx['context'] != 'alone'
     return len(spec) >= 2
 
 
@@ -344,7 +602,8 @@ def _range_run(shard, ctx):
     for i, case in enumerate(_range_cases(shard['tier'])):
         if i % shard['n'] != shard['k']:
             continue
-        key = repr((case['spec'], case['kind'], case['form'], case['delim'], case.get('bad')))
+        key = repr((case['spec'], case['kind'], case['form'], case['delim'], case.get('bad'),
+                    sorted((case.get('badx') or {}).items())))
         ctx.state(key)
         if _range_tags(case, ctx):
             ctx.nontrivial(key)
@@ -885,7 +1144,9 @@ LEVEL_TEXT = ('Bounded exhaustive enumeration of id collections (subsets, orderi
               'independent reader and must denote exactly the input ids; wrapped text is re-tokenized and every '
               'line measured; the phase / BEP writers\' range fields are checked the same way; every string field of '
               'every phase writer is re-tokenized and its physical lines measured for every max_line_len 40..100.')
-LEVEL_NOTE = ('Suffix universe of 11 integers, subsets up to 4 (quick) / 6 (thorough) ids per prefix plus long runs '
+LEVEL_NOTE = ('Generated non-encodable ids take every (kind, form, delimiter) with prefix r<d> and four of the sixteen '
+              'in rotation with the other prefixes; the Unicode alphabets are those of the interpreter. '
+              'Suffix universe of 11 integers, subsets up to 4 (quick) / 6 (thorough) ids per prefix plus long runs '
               'up to 60 ids; every ordering only for sizes <= 4; non-sorted orderings and multi-prefix cases take '
               'one (kind, form, delimiter) combination each in rotation.')
 TECHNIQUE = 'bounded exhaustive product enumeration on the implementation, expand-and-compare oracle'
